@@ -59,3 +59,23 @@ Theorem C03_primary_trim_cuts_a_torn_record :
     trim_len (length l + 1) (enc_pfile l ++ firstn j (enc_pslot (PLive k v))) 0 = length (enc_pfile l).
 Proof. exact trim_file_torn. Qed.
 Print Assumptions C03_primary_trim_cuts_a_torn_record.
+
+(* ---- "header advanced before file removal" (Retire.v): a log is a header naming its first file and a set of numbered files; the rescan
+   at Open and the collectors walk the files from the header's number upwards and stop at the first number without a file.  Retiring the
+   first file = write the header with first + 1, then remove the file.  After ANY prefix of these two steps (a crash in between included) the
+   walk still reaches every file above the retired one; in the other order a crash leaves a header that names a missing file and the walk
+   reaches nothing.  The order is regenerated from Index.gc, Index.truncateFreeFiles and primaryGC.gc (skeleton_ok_C03). ---- *)
+From STH Require Import Retire.
+Theorem C03_retiring_the_first_file_header_first_never_cuts_the_log_off :
+  forall l m fuel k,
+    contiguous l (first l) (S m) -> exists_file l (first l + S m)%nat = false -> (S m <= fuel)%nat ->
+    let l' := fold_left rstep_apply (firstn k (retire_ops l)) l in
+    forall n, In n (seq (S (first l)) m) -> In n (reached l' fuel).
+Proof. exact retire_header_first. Qed.
+Print Assumptions C03_retiring_the_first_file_header_first_never_cuts_the_log_off.
+Theorem C03_removing_the_file_first_can_cut_the_log_off :
+  let l := {| first := 0%nat; files := [0; 1; 2]%nat |} in
+  let crashed := {| first := 0%nat; files := [1; 2]%nat |} in
+  crashed = rstep_apply l (RRemove 0%nat) /\ reached crashed 5%nat = [] /\ reached (rstep_apply l RHeader) 5%nat = [1; 2]%nat.
+Proof. exact remove_first_then_crash_cuts_the_log_off. Qed.
+Print Assumptions C03_removing_the_file_first_can_cut_the_log_off.
